@@ -353,7 +353,7 @@ class Ctx:
       else:
         self.discharged.append(n)
     if self.tier == "thorough" and not self.audit_failures:
-      rc, out = run_cmd(["lake", "env", "leanchecker", f"Properties.{self.prop}"], cwd=LEAN_DIR, timeout=3000)
+      rc, out = run_cmd(["lake", "env", "leanchecker"] + list(getattr(self, "audit_imports", [f"Properties.{self.prop}"])), cwd=LEAN_DIR, timeout=3000)
       self.extra["leanchecker_rc"] = rc
       if rc != 0:
         self.audit_failures.append("leanchecker failed: " + out[-300:])
